@@ -5,7 +5,7 @@ import itertools
 from ..program import AnalysisError, walk_local, dotted
 from ..analysis import Spec, src, const_value
 from ..cfg import node_contains_call
-from ..rules import (GWF, EXC, mpt, need_func, stores_to, raise_class,
+from ..rules import (substitute_locals, GWF, EXC, mpt, need_func, stores_to, raise_class,
                      norm_bool, parent_map, kw, is_const, outcomes,
                      eval_atom, eval_cond, UNKNOWN)
 from . import common
@@ -106,15 +106,27 @@ def registry(prog, an, rep):
                     rep.evaluated()
                     # positional arguments fill the fields in order,
                     # keyword arguments name their field
-                    kws = {k.arg: src(k.value) for k in call.keywords}
-                    names = [src(a) for a in call.args] + [
-                        kws.get(w, '?') for w in want[len(call.args):]]
+                    kws = {k.arg: k.value for k in call.keywords}
+                    vals = dict(zip(want, call.args))
+                    vals.update(kws)
+                    names = [src(substitute_locals(meth, vals[w]))
+                             if w in vals else '?' for w in want]
+                    # the flags (and the default) are the registration's
+                    # own parameters of the same name; the help text comes
+                    # from help_ or the docstring; the handler is a function
                     ok = set(kws) <= set(want[len(call.args):]) and \
-                        len(names) == len(want) and all(
-                        n.strip('_') == w or (w == 'handler' and n in (
-                            'func', 'set_option', 'handler')) or
-                        (w == 'help' and n.strip('_') == 'help')
-                        for n, w in zip(names, want))
+                        len(vals) == len(want)
+                    for w, n in zip(want, names):
+                        if w in ('default', 'privileged', 'authored'):
+                            ok = ok and n == w and w in meth.params
+                        elif w == 'help':
+                            ok = ok and ('help_' in n or '__doc__' in n) \
+                                and not any(x in n for x in (
+                                    'privileged', 'authored'))
+                        else:
+                            ok = ok and n.isidentifier() and n not in (
+                                'default', 'privileged', 'authored',
+                                'help_')
                     rep.check(ok, R, '%s: %s(...) argument order' % (
                         meth.qname, tname), meth.where(call),
                         '%s built with %s, fields are %s (a swapped flag '
@@ -267,12 +279,12 @@ def addressed_to_robot(prog, an, rep):
             e.func.attr == 'startswith' and e.args and
             isinstance(e.args[0], ast.Name) and e.args[0].id == prefix, True)
         rm_tests = [t for t in an.test_nodes(
-            f, lambda e: isinstance(e, ast.Call) and
-            dotted(e.func) == 're.match')]
+            f, lambda e: _regex_match(f, e) is not None)]
         rm = []
         for t in rm_tests:
             rm += c.branch(t, True)
-            pat = const_value(t.matched.args[0])
+            pat_e, subject = _regex_match(f, t.matched)
+            pat = const_value(pat_e)
             lang = Lang.from_regex(pat)
             fc = lang.first_chars()
             rep.evaluated()
@@ -280,11 +292,12 @@ def addressed_to_robot(prog, an, rep):
                       'regex %r starts with "/"' % (f.qname, pat),
                       f.where(t), 'the prefix-less syntax accepts text '
                       'starting with %s' % sorted(fc)[:8], detail=pat)
-            rep.check(len(t.matched.args) > 1 and
-                      _same_text(f, t.matched.args[1], sw_subject(an, f, prefix)),
+            rep.check(subject is not None and
+                      _same_text(f, subject, sw_subject(an, f, prefix)),
                       'C07.ARG.slash-syntax', f.qname + ': slash regex is '
                       'matched against the stripped comment', f.where(t),
-                      're.match is applied to %s' % src(t.matched.args[1]))
+                      're.match is applied to %s' % (
+                          subject is not None and src(subject)))
         rep.floor('C07 addressed-to-robot tests in ' + f.name,
                   len(sw) + len(rm), 2)
         hcalls = [n for n in c.nodes.values() if n.kind == 'stmt' and any(
@@ -301,12 +314,21 @@ def addressed_to_robot(prog, an, rep):
                       'nor uses the slash syntax',
                       path=c.describe_path(path))
         # what is parsed is the text after the prefix that matched
-        raws = {src(t.matched.func.value) for t in an.test_nodes(
+        raws = {_text(f, t.matched.func.value) for t in an.test_nodes(
             f, lambda e: isinstance(e, ast.Call) and
             isinstance(e.func, ast.Attribute) and
             e.func.attr == 'startswith')}
         rep.check(len(raws) == 1, 'C07.ARG.addressed', f.qname +
                   ': one subject text', f.where(), 'startswith on %s' % raws)
+        # ... and that text is the comment without its surrounding blanks:
+        # what follows the prefix is cut out of the stripped text, so the
+        # prefix has to be looked for in the stripped text too
+        text = f.params[2]
+        rep.check(raws <= {text + '.strip()', text + '.lstrip()'},
+                  'C07.ARG.addressed', f.qname + ': the robot prefix is '
+                  'looked for in the stripped comment', f.where(),
+                  'a comment with leading blanks is not addressed to the '
+                  'robot: startswith on %s' % sorted(raws))
 
 
 def _flag_guard(an, f, c, gates, h, path):
@@ -358,8 +380,27 @@ def sw_subject(an, f, prefix):
     return None
 
 
+def _text(f, e):
+    return src(substitute_locals(f, e))
+
+
 def _same_text(f, a, b):
-    return b is not None and src(a) == src(b)
+    return b is not None and _text(f, a) == _text(f, b)
+
+
+def _regex_match(f, e):
+    """(pattern, subject) of `re.match(P, S)` / `<compiled P>.match(S)`."""
+    if not isinstance(e, ast.Call):
+        return None
+    if dotted(e.func) == 're.match':
+        return e.args[0], (e.args[1] if len(e.args) > 1 else None)
+    if isinstance(e.func, ast.Attribute) and e.func.attr == 'match' and \
+            len(e.args) == 1:
+        comp = substitute_locals(f, e.func.value)
+        if isinstance(comp, ast.Call) and dotted(comp.func) == 're.compile' \
+                and comp.args:
+            return comp.args[0], e.args[0]
+    return None
 
 
 def _loop_binding(loop, name):
